@@ -313,7 +313,11 @@ func c08judge(c *vt.Ctx, r c08run, rig *peer.ServerRig, st jrpc2.ServerStatus, c
 		// that follows the stop cause (if the run had one): a call handler that
 		// was running when the cause occurred can only have left cancelled.
 		if tSettled < 1<<62 && !v.note && tag != "again" && !strings.Contains(v.exitInfo, "ctxerr=context canceled") {
-			if v.enter < tCause && v.exit > tCause {
+			// still running at the first quiescent point after the stop: it can only
+			// have been woken by cancellation or by the teardown's gate release, and
+			// in both cases must see the cancelled context (a handler that finishes
+			// on its own between the cause and the stop taking effect is not judged)
+			if v.enter < tCause && v.exit > tSettled {
 				c.Failf("call handler %s was in flight when the server stopped but left with %s", tag, v.exitInfo)
 			} else if v.enter > tSettled {
 				// it started after a quiescent point that followed the stop: the server was
